@@ -63,15 +63,28 @@ func delegKey(ds []*types.PillarDelegation) string {
 	return s
 }
 
-// term: (momentums, delegation table, perm table, genesis time)
-func (l *ledger) term() interface{} {
+// term: (momentums, delegation table, perm table, genesis time). The chain is complete; the delegation and
+// permutation tables are pruned to what an election for the given timestamps can read (the proof momentum
+// according to the harness' own reference, and its neighbours): a model that picked another proof momentum
+// would find no table entry and disagree visibly.
+func (l *ledger) term(tss ...int64) interface{} {
 	fr := frontierOf(l.nd.Ch)
 	st := l.nd.Ch.GetFrontierMomentumStore()
 	chainT := Lst()
-	tab := Lst()
-	ps := newPermSet()
 	nc := int(constants.ConsensusConfig.NodeCount)
 	rc := int(constants.ConsensusConfig.RandCount)
+	need := map[uint64]bool{}
+	for _, ts := range tss {
+		if p := l.refProof(ts); p != nil {
+			for _, h := range []uint64{p.Height - 1, p.Height, p.Height + 1} {
+				if h >= 1 && h <= fr.Height {
+					need[h] = true
+				}
+			}
+		}
+	}
+	tab := Lst()
+	ps := newPermSet()
 	last := "-"
 	for h := uint64(1); h <= fr.Height; h++ {
 		m, err := st.GetMomentumByHeight(h)
@@ -79,6 +92,9 @@ func (l *ledger) term() interface{} {
 			panic("missing momentum")
 		}
 		chainT = append(chainT, Tup(hashZ(m.Hash), U64(m.Height), U64(m.TimestampUnix)))
+		if !need[h] {
+			continue
+		}
 		ds, ok := l.delegs[h]
 		if !ok {
 			panic(fmt.Sprintf("no delegations recorded for height %d", h))
@@ -150,20 +166,15 @@ func refSchedule(ds []*types.PillarDelegation, height uint64, nc, rc int) []*typ
 	return out
 }
 
-// refProducer: nil if ts is no slot start or there is no proof momentum
-func (l *ledger) refProducer(ts int64) *types.Address {
+// refProof: the proof momentum of the tick of ts = the last momentum strictly before the start of the previous tick
+func (l *ledger) refProof(ts int64) *nom.Momentum {
 	nc := int(constants.ConsensusConfig.NodeCount)
-	rc := int(constants.ConsensusConfig.RandCount)
 	bt := constants.ConsensusConfig.BlockTime
 	tl := bt * int64(nc)
-	if ts < genesisTs {
+	if ts < genesisTs || ts > genesisTs+(1<<40) {
 		return nil
 	}
 	tick := (ts - genesisTs) / tl
-	off := (ts - genesisTs) % tl
-	if off%bt != 0 {
-		return nil
-	}
 	proofTime := genesisTs + 1
 	if tick >= 2 {
 		proofTime = genesisTs + (tick-1)*tl
@@ -179,6 +190,23 @@ func (l *ledger) refProducer(ts int64) *types.Address {
 			break
 		}
 	}
+	return proof
+}
+
+// refProducer: nil if ts is no slot start or there is no proof momentum
+func (l *ledger) refProducer(ts int64) *types.Address {
+	nc := int(constants.ConsensusConfig.NodeCount)
+	rc := int(constants.ConsensusConfig.RandCount)
+	bt := constants.ConsensusConfig.BlockTime
+	tl := bt * int64(nc)
+	if ts < genesisTs {
+		return nil
+	}
+	off := (ts - genesisTs) % tl
+	if off%bt != 0 {
+		return nil
+	}
+	proof := l.refProof(ts)
 	if proof == nil {
 		return nil
 	}
